@@ -6,6 +6,7 @@ package main
 // aggregator that groups fixed and nullable variants of a type.
 
 import (
+	"bytes"
 	"encoding/binary"
 	"encoding/hex"
 	"encoding/json"
@@ -15,6 +16,7 @@ import (
 	"sort"
 	"strings"
 	"sync"
+	"sync/atomic"
 	"time"
 	"unicode/utf8"
 
@@ -381,8 +383,25 @@ type dtLibOut struct {
 
 func dtLibBytes(vr *dtVariant, lv interface{}, length int64) (o dtLibOut) {
 	o.panic = rt.Catch(func() { o.bs, o.err = vr.T.Bytes(dtLE, lv, length) })
+	if o.panic != nil {
+		return
+	}
+	// encoding must not change the caller's value: the same value is encoded
+	// a second time, and where the two encodings differ the second one is
+	// what the oracles judge (it then differs from the reference as well)
+	var o2 dtLibOut
+	o2.panic = rt.Catch(func() { o2.bs, o2.err = vr.T.Bytes(dtLE, lv, length) })
+	if o2.panic != nil || (o2.err == nil) != (o.err == nil) || !bytes.Equal(o2.bs, o.bs) {
+		atomic.AddInt64(&dtSecondEncodingDiffers, 1)
+		return o2
+	}
 	return
 }
+
+// dtSecondEncodingDiffers counts values whose second encoding differed from
+// the first (0 on a tree that holds the property; the differing encoding is
+// judged by the callers).
+var dtSecondEncodingDiffers int64
 
 func dtLibGoValue(vr *dtVariant, bs []byte) (o dtLibOut) {
 	o.panic = rt.Catch(func() { o.val, o.err = vr.T.GoValue(dtLE, bs) })
